@@ -43,11 +43,12 @@ Fresh(p, s0) ==
         cur |-> [op |-> "none"], expect |-> "", stack |-> <<>>, fn |-> <<>>,
         structs |-> <<>>, order |-> <<>>, cap |-> p.lru_cap, handed |-> {},
         dropped |-> {}, evNow |-> {}, pend |-> {}, noC03 |-> FALSE, panics |-> 0,
-        cyc |-> HasCyc(p), inject |-> 0, injected |-> FALSE, s0 |-> s0]
+        cyc |-> HasCyc(p), inject |-> 0, injected |-> FALSE, s0 |-> s0,
+        idv |-> <<>>, itn |-> <<>>, iq |-> <<<<1>>, <<1, 1>>, <<1, 1, 1>>>>, canon |-> <<>>, canonRev |-> 0, prevId |-> <<>>]
 
-K0 == [has |-> FALSE, v |-> -1, hs |-> <<>>, s |-> 0, deps |-> <<>>, untr |-> FALSE,
+K0 == [has |-> FALSE, v |-> -1, hs |-> <<>>, is |-> <<>>, s |-> 0, deps |-> <<>>, untr |-> FALSE,
        execRev |-> 0, lastVal |-> 0, semCh |-> 0, dur |-> 3, evicted |-> FALSE,
-       news |-> <<>>, kj |-> 0, km |-> 0, ki |-> "", running |-> FALSE]
+       news |-> <<>>, kj |-> 0, km |-> 0, ki |-> "", running |-> FALSE, assigned |-> FALSE]
 
 Fn(k) == IF k \in DOMAIN st.fn THEN st.fn[k] ELSE K0
 PutFn(s, k, r) == [s EXCEPT !.fn = [x \in (DOMAIN s.fn) \cup {k} |-> IF x = k THEN r ELSE s.fn[x]]]
@@ -57,6 +58,11 @@ S0 == [creator |-> "", cj |-> 0, pos |-> 0, ident |-> -1, ord |-> 0, x |-> -1, y
 Struct(id) == IF id \in DOMAIN st.structs THEN st.structs[id] ELSE S0
 PutStruct(s, id, r) ==
     [s EXCEPT !.structs = [x \in (DOMAIN s.structs) \cup {id} |-> IF x = id THEN r ELSE s.structs[x]]]
+
+I0 == [kind |-> 0, v |-> -1, gn |-> -1, last |-> 0, dur |-> -9]
+Itn(ix) == IF ix \in DOMAIN st.itn THEN st.itn[ix] ELSE I0
+PutItn(s, ix, r) == [s EXCEPT !.itn = [x \in (DOMAIN s.itn) \cup {ix} |-> IF x = ix THEN r ELSE s.itn[x]]]
+PutMap(m, k, r) == [x \in (DOMAIN m) \cup {k} |-> IF x = k THEN r ELSE m[x]]
 
 IsLruKey(k) == Fn(k).kj > 0 /\ P.fns[Fn(k).kj].kind = "lru"
 KindJ(j) == IF j > 0 /\ j <= Len(P.fns) THEN P.fns[j].kind ELSE ""
@@ -92,7 +98,7 @@ DepChanged(d, r) ==
       [] d.t = "fld" -> LET sr == Struct(d.k) IN
                         (~sr.live) \/ sr.born > r
                         \/ (d.b = 1 /\ sr.xw > r) \/ (d.b = 2 /\ sr.yw > r)
-      [] d.t = "int" -> TRUE     \* interned reclamation is judged by C07/C09 monitors
+      [] d.t = "int" -> Itn(d.a).gn > d.b       \* the interned value was reclaimed
       [] OTHER -> FALSE
 
 RECURSIVE StaleK(_, _)
@@ -280,12 +286,19 @@ OnWe ==
 
 OnDv ==
     LET k == ev.k f == Fn(k) IN
-    st' = PutFn(st, k, [f EXCEPT !.lastVal = st.rev])
+    /\ Check("C07", \A i \in 1..Len(f.deps) :
+                 LET d == f.deps[i] IN
+                 /\ (d.t = "int" => Itn(d.a).gn = d.b)
+                 /\ (d.t = "fld" => Struct(d.k).live),
+             <<"validated although a struct or interned value it depends on was reclaimed", k, f.deps>>)
+    /\ st' = PutFn(st, k, [f EXCEPT !.lastVal = st.rev])
 
 OnBs ==
     st' = [st EXCEPT !.stack = Append(st.stack,
               [k |-> ev.k, kj |-> ev.kj, km |-> ev.km, ki |-> ev.ki, deps |-> <<>>,
-               untr |-> FALSE, dmin |-> 3, news |-> <<>>])]
+               untr |-> FALSE, dmin |-> 3, news |-> <<>>,
+               is |-> IF ev.km \in 11..14 /\ ev.ki \in DOMAIN st.idv
+                      THEN <<[kind |-> ev.km - 10, v |-> st.idv[ev.ki]]>> ELSE <<>>])]
 
 Top == st.stack[Len(st.stack)]
 SetTop(s, fr) == [s EXCEPT !.stack[Len(s.stack)] = fr]
@@ -294,7 +307,7 @@ DepDur(d) ==
     CASE d.t = "in" -> st.inp[d.a][d.b].d
       [] d.t \in {"fn", "sfn", "ifn"} -> Fn(d.k).dur
       [] d.t = "fld" -> Struct(d.k).d
-      [] d.t = "int" -> -1
+      [] d.t = "int" -> 3     \* an edge is only recorded for LOW values, by LOW interners: no effect
       [] OTHER -> 0
 
 OnRd ==
@@ -320,11 +333,21 @@ OnRd ==
               LET ss == SemStruct(d.k) IN
               Check("C01", ss.ok /\ ev.v = (IF d.b = 0 THEN ss.r.ident ELSE IF d.b = 1 THEN ss.r.x ELSE ss.r.y),
                     <<"tracked struct field read differs", d, ev.v, ss>>)
+         [] d.t = "int" ->
+              LET okslot == ev.sb >= 1 /\ ev.sb <= Len(fr.is)
+                  exp == IF okslot THEN fr.is[ev.sb].v ELSE -2 IN
+              /\ Check("C08", okslot /\ ev.v = exp, <<"interned field read differs from the interned value", d, ev.v, exp>>)
+              /\ Check("C07", okslot /\ ev.v = exp, <<"interned field read differs from the interned value", d, ev.v, exp>>)
+              /\ Check("C01", okslot /\ ev.v = exp, <<"interned field read differs from the interned value", d, ev.v, exp>>)
          [] d.t = "sfn" ->
               LET sv == SemVal(0, d.a, Fn(d.k).ki) IN
-              (sv >= 0 /\ ~(d.a = 3)) => Check("C01", ev.v = sv, <<"struct function read differs", d, ev.v, sv>>)
+              (sv >= 0) => Check(IF d.a = 3 THEN "C10" ELSE "C01", ev.v = sv, <<"struct function read differs", d, ev.v, sv>>)
          [] OTHER -> TRUE
-    /\ st' = IF d.t = "fn" THEN Touch(s2, d.k) ELSE s2
+    /\ st' = IF d.t = "fn"
+             THEN LET cis == IF st.sem[d.a].err = "" THEN st.sem[d.a].is ELSE <<>> IN
+                  Touch(SetTop(st, [fr2 EXCEPT !.is = fr2.is \o cis]), d.k)
+             ELSE IF d.t = "int" THEN SetTop(st, [fr EXCEPT !.deps = fr.deps])   \* reading a field records no edge
+             ELSE s2
 
 OnNew ==
     LET fr == Top
@@ -358,15 +381,15 @@ OnBe ==
         f == Fn(k)
         noeq == fr.kj > 0 /\ KindJ(fr.kj) = "noeq"
         newdur == fr.dmin
-        changed == \/ ~f.has \/ f.evicted \/ f.v # ev.v \/ f.hs # ev.hs \/ noeq
+        changed == \/ ~f.has \/ f.evicted \/ f.v # ev.v \/ f.hs # ev.hs \/ f.is # ev.is \/ noeq
                    \/ newdur < 0 \/ f.dur < 0 \/ newdur < f.dur
         oldIds == {f.news[i].id : i \in 1..Len(f.news)}
         newIds == {fr.news[i].id : i \in 1..Len(fr.news)}
         sv == SemVal(fr.kj, fr.km, fr.ki)
-        f2 == [f EXCEPT !.has = TRUE, !.v = ev.v, !.hs = ev.hs, !.s = ev.s, !.deps = fr.deps,
+        f2 == [f EXCEPT !.has = TRUE, !.v = ev.v, !.hs = ev.hs, !.is = ev.is, !.s = ev.s, !.deps = fr.deps,
                         !.untr = fr.untr, !.semCh = IF changed THEN st.rev ELSE f.semCh,
                         !.dur = IF fr.untr THEN 0 ELSE newdur, !.evicted = FALSE,
-                        !.news = fr.news, !.running = FALSE,
+                        !.news = fr.news, !.running = FALSE, !.assigned = FALSE,
                         !.kj = fr.kj, !.km = fr.km, !.ki = fr.ki]
         s2 == PutFn([st EXCEPT !.stack = SubSeq(st.stack, 1, Len(st.stack) - 1),
                                !.pend = IF f.has THEN st.pend \cup (oldIds \ newIds) ELSE st.pend],
@@ -374,7 +397,7 @@ OnBe ==
     IN
     /\ Len(st.stack) > 0
     /\ Check("C01", ev.k = k, <<"body_end does not match the innermost frame", ev.k, k>>)
-    /\ (~st.cyc /\ sv >= 0 /\ ~(fr.km = 3)) =>
+    /\ (~st.cyc /\ sv >= 0) =>
           Check("C01", ev.v = sv, <<"function body result differs from from-scratch evaluation", k, ev.v, sv>>)
     /\ st' = s2
 
@@ -398,7 +421,7 @@ OnRetained ==
 
 OnDd ==
     \* DidDiscard of a tracked struct or of a memo
-    IF ev.km = 0 /\ ev.ki # "" /\ ev.ki \in DOMAIN st.structs THEN
+    IF ev.km = 30 /\ ev.ki \in DOMAIN st.structs THEN
         LET s1 == PutStruct(st, ev.ki, [Struct(ev.ki) EXCEPT !.live = FALSE]) IN
         st' = [s1 EXCEPT !.pend = st.pend \ {ev.ki},
                          !.fn = [k \in DOMAIN s1.fn |->
@@ -406,6 +429,71 @@ OnDd ==
     ELSE IF ev.k \in DOMAIN st.fn THEN
         st' = PutFn(st, ev.k, [Fn(ev.k) EXCEPT !.has = FALSE])
     ELSE st' = st
+
+\* a value handed to `specify`: it becomes the current value of the specified key unless an
+\* earlier-computed value wins (then it is dropped right away)
+OnSpecv ==
+    LET k == ev.sk f == Fn(k) IN
+    st' = PutFn(st, k, [f EXCEPT !.s = ev.s, !.assigned = TRUE])
+
+\* ---- interning (C07, C08, C09) ----
+OnIrec ==
+    LET c == ev.cap IN
+    IF c \in 1..3
+    THEN st' = [st EXCEPT !.iq[c] = <<ev.rev>> \o SubSeq(st.iq[c], 1, c - 1)]
+    ELSE st' = st
+
+IdStr(ix, gn) == ToString(ix) \o "." \o ToString(gn)
+
+\* a fresh slot
+OnDiv ==
+    st' = PutItn(st, ev.ix, [kind |-> ev.km - 20, v |-> -1, gn |-> ev.gn, last |-> st.rev, dur |-> -9])
+
+OnDviv ==
+    st' = PutItn(st, ev.ix, [Itn(ev.ix) EXCEPT !.last = st.rev])
+
+\* a slot is reused for different data: only if reclaimable and stale (C09)
+OnDriv ==
+    LET old == Itn(ev.ix)
+        K == old.kind
+        q == IF K \in 1..3 THEN st.iq[K] ELSE <<>>
+        primed == K \in 1..3 /\ q[K] > 1
+        stale == primed /\ old.last < q[K]
+        oldid == IdStr(ev.ix, old.gn)
+        s1 == PutItn(st, ev.ix, [kind |-> ev.km - 20, v |-> -1, gn |-> ev.gn, last |-> st.rev, dur |-> -9])
+    IN
+    /\ Check("C09", K \in 1..3, <<"slot of a non-collectable interned type reused", ev.k, old>>)
+    /\ Check("C09", old.dur <= 0, <<"slot of a value interned by a durable function reused", ev.k, old>>)
+    /\ Check("C09", primed, <<"slot reused before enough revisions used the type", ev.k, old, q>>)
+    /\ Check("C09", stale, <<"slot reused although the value was interned/validated recently", ev.k, old, q>>)
+    /\ Check("C09", ev.gn > old.gn, <<"slot reused without a new generation", ev.k, old>>)
+    /\ st' = [s1 EXCEPT !.fn = [k \in DOMAIN s1.fn |->
+                  IF s1.fn[k].km \in 11..14 /\ s1.fn[k].ki = oldid THEN [s1.fn[k] EXCEPT !.has = FALSE] ELSE s1.fn[k]]]
+
+OnInt ==
+    LET fr == Top
+        key == <<ev.kind, ev.v>>
+        cn == IF st.canonRev = st.rev THEN st.canon ELSE <<>>
+        it == Itn(ev.ix)
+        d2 == IF it.dur = -9 THEN fr.dmin ELSE Max2(it.dur, fr.dmin)
+        pv == IF key \in DOMAIN st.prevId THEN st.prevId[key] ELSE [ix |-> -1, gn |-> -1]
+        s1 == PutItn(st, ev.ix, [kind |-> ev.kind, v |-> ev.v, gn |-> ev.gn, last |-> st.rev, dur |-> d2])
+        fr2 == [fr EXCEPT !.is = Append(fr.is, [kind |-> ev.kind, v |-> ev.v]),
+                          !.deps = Append(fr.deps, [t |-> "int", a |-> ev.ix, b |-> ev.gn, k |-> ev.id])]
+    IN
+    /\ Len(st.stack) > 0
+    /\ (key \in DOMAIN cn) =>
+          Check("C08", cn[key] = ev.id, <<"equal values interned to different handles in one revision", key, cn[key], ev.id>>)
+    /\ Check("C08", \A k2 \in DOMAIN cn : (k2 # key /\ k2[1] = ev.kind) => cn[k2] # ev.id,
+             <<"unequal values interned to the same handle in one revision", key, ev.id>>)
+    /\ Check("C08", it.gn = ev.gn /\ (it.v = -1 \/ it.v = ev.v),
+             <<"handle does not belong to the interned value", key, ev.id, it>>)
+    /\ (pv.ix >= 0 /\ (pv.ix # ev.ix \/ pv.gn # ev.gn)) =>
+          Check("C08", Itn(pv.ix).gn > pv.gn,
+                <<"value changed its identity although its slot was not reclaimed", key, pv, ev.id>>)
+    /\ st' = [SetTop(s1, fr2) EXCEPT !.canon = PutMap(cn, key, ev.id), !.canonRev = st.rev,
+                                     !.prevId = PutMap(st.prevId, key, [ix |-> ev.ix, gn |-> ev.gn]),
+                                     !.idv = PutMap(st.idv, ev.id, ev.v)]
 
 OnInject == st' = [st EXCEPT !.injected = TRUE, !.noC03 = TRUE]
 
@@ -441,6 +529,12 @@ TraceNext ==
          [] ev.e = "drop" -> OnDrop
          [] ev.e = "retained" -> OnRetained
          [] ev.e = "dd" -> OnDd
+         [] ev.e = "specv" -> OnSpecv
+         [] ev.e = "irec" -> OnIrec
+         [] ev.e = "div" -> OnDiv
+         [] ev.e = "dviv" -> OnDviv
+         [] ev.e = "driv" -> OnDriv
+         [] ev.e = "int" -> OnInt
          [] ev.e = "inject" -> OnInject
          [] ev.e = "dbdrop_begin" -> OnDbDropBegin
          [] ev.e = "dbdrop_end" -> OnDbDropEnd
